@@ -96,6 +96,20 @@ def arg_forms(text, cls):
         forms.append(("own-object", cls(text, allow_invalid=True)))
     except Exception:  # noqa: BLE001 - construction problems are reported by the property's own totality relation
         pass
+    # the same text carried by an object of ANOTHER library class (they are all strings): it is still just that text
+    try:
+        from schwifty import BBAN, BIC, IBAN
+        for name, other, make in (("iban-object", IBAN, lambda: IBAN(text, allow_invalid=True)),
+                                  ("bic-object", BIC, lambda: BIC(text, allow_invalid=True)),
+                                  ("bban-object", BBAN, lambda: BBAN(text[:2] if text[:2].isalpha() and text[:2].isascii() else "DE", text))):
+            if other is cls:
+                continue
+            try:
+                forms.append((name, make()))
+            except Exception:  # noqa: BLE001
+                pass
+    except ImportError:
+        pass
     return forms
 
 
